@@ -404,6 +404,8 @@ namespace {
         std::unordered_set<std::size_t> processedIndices;
         for (auto const & [var, polyIndices] : varToPolyIndices) {
             if (polyIndices.size() != 1 or var == PTRef_Undef) { continue; }
+            // Only a variable can be the target of a substitution, see arithmeticElimination
+            if (not logic.isVar(var)) { continue; }
             auto index = polyIndices[0];
             if (processedIndices.contains(index)) { continue; }
             auto & poly = zeroPolynomials[index];
@@ -452,6 +454,11 @@ lbool ArithLogic::arithmeticElimination(vec<PTRef> const & top_level_arith, Subs
             // Already have a substitution for this variable; skip this equality, let the main loop deal with this
             continue;
         }
+        // The "variable" of a polynomial can be a compound term of numeric sort (an application of an uninterpreted function,
+        // a select). Such a term may come to contain itself once other substitutions are applied inside it, e.g.
+        // g(g(x, f(y)), x) = g(x, f(x)) together with y = x, and the substitution loop breaker only knows about variables:
+        // rewriting would not terminate. Only variables are eliminated.
+        if (not logic.isVar(var)) { continue; }
 
         PTRef sub = polyToPTRefSubstitution(logic, var, poly);
         if (sub == PTRef_Undef) { continue; }
